@@ -122,8 +122,17 @@ def run(chk, prog):
     errs = [c for c in cb.calls if any(cb.str_of(a) == "idle timeout" for a in c.args)]
     ok = len(errs) == 1 and len(ist) == 2
     if ok:
+        from ..flow import edge_implies_call
+        # the edges that lead to the idle-timeout error: every switch edge dominating it
+        dom_edges = []
+        for b in cb.reachable:
+            t = cb.term(b)
+            if t and t["k"] == "switch":
+                for tb in set(cb.succ[b]):
+                    if edge_dominates(cb, b, tb, errs[0].bb):
+                        dom_edges.append((b, tb))
         for c in ist:
-            if not any(edge_dominates(cb, sb, tt, errs[0].bb) for (sb, tt, ft) in bool_branch(cb, c.dest[0])):
+            if not any(edge_implies_call(cb, sb, tb, c, True) for (sb, tb) in dom_edges):
                 ok = False
     chk.instance("closing", "%s:%s" % (cb.file, cb.line), "the idle-timeout error requires is_timeout of both directions", ok)
     if not ok:
